@@ -41,6 +41,13 @@ BASES = [0, 0, 0, 2 ** 31 - 30000, 2 ** 32 - 50000, 2 ** 32 + 7000000]
 PREV = [None]
 
 
+def next_slot():
+    """the handle the HAL would hand out next (lowest free slot of its notifier table); the probe is given back at once"""
+    h, _ = hal.initializeNotifier()
+    hal.cleanNotifier(h)
+    return h
+
+
 def run_trace(tid, events):
     hs.pauseTiming()
     # some histories start shortly before / after the FPGA microsecond counter passes 2^31 or 2^32
@@ -50,6 +57,7 @@ def run_trace(tid, events):
         hs.stepTimingAsync(target - cur)
     base = wpilib.RobotController.getFPGATime()
     n0 = hs.getNumNotifiers()
+    s0 = next_slot()
     d = None
     nwait = 0
     steps = []
@@ -91,7 +99,9 @@ def run_trace(tid, events):
         nxt = hs.getNextNotifierTimeout()
         steps.append({"in": ev, "out": {
             "t": wpilib.RobotController.getFPGATime() - base,
-            "n": hs.getNumNotifiers() - n0,
+            # running notifiers, and (normally 0) slots of the HAL's notifier table that are taken without a running
+            # notifier: a stopped notifier that was never cleaned is not "released"
+            "n": max(hs.getNumNotifiers() - n0, next_slot() - s0),
             "alarm": -1 if nxt == NOALARM else nxt - base,
             "err": err or blocked[0]}})
     if d is not None:
